@@ -158,7 +158,7 @@ func workerEnv(dir string, off int) []string {
 		out = append(out, e)
 	}
 	rl := filepath.Join(dir, fmt.Sprintf("race-%d", off))
-	out = append(out, "GOMAXPROCS=1", "PBSIM_RACELOG="+rl, "GORACE=log_path="+rl+" halt_on_error=0 history_size=2", "PBSIM_WORKDIR="+dir)
+	out = append(out, "GOMAXPROCS=1", "PBSIM_RACELOG="+rl, "GORACE=log_path="+rl+" halt_on_error=0 history_size=2", "PBSIM_WORKDIR="+dir, "PBSIM_MAPSEED=1")
 	return out
 }
 
